@@ -170,6 +170,7 @@ class Cx:
         self.body = body
         self.K = []
         self.known = set()
+        self.site_defp = {}     # call site id -> def path of the body the call sits in (inlined frames)
 
     def add(self, lin):
         self.K.append(lin)
@@ -209,7 +210,7 @@ class Cx:
         elif t[0] == 'field' and t[2] in ('len', 'val', '^val', '^len'):
             ty = 'u64'
         elif t[0] == 'call':
-            ty = self.eng.call_ret_ty.get((b.defp, t[3].split('.')[0]))
+            ty = self.eng.call_ret_ty.get((self.site_defp.get(t[3], b.defp), t[3].split(':')[-1].split('.')[0]))
         elif t[0] == 'field' and t[2].startswith('^'):
             ty = self.eng.upvar_ty.get((b.defp, t[2]))
         elif t[0] == 'deref':
@@ -436,8 +437,10 @@ class Engine:
                     cx.assume(e.term, 'else' if e.value == 1 else 0)
                 else:
                     cx.assume(e.term, e.value)
-            elif e.kind == 'call' and on_call:
-                on_call(cx, e)
+            elif e.kind == 'call':
+                cx.site_defp[e.site] = e.defp or b.defp
+                if on_call:
+                    on_call(cx, e)
         return cx
 
     def width_summary(self, name):
@@ -520,11 +523,12 @@ class Engine:
             msg = e.name[len('assert:'):]
             if not msg.startswith('Overflow'):
                 return
-            key = (e.bb, msg)
-            term = b.blocks[e.bb]['term']
+            eb = self.facts.bodies.get(e.defp or '') or b     # the body the check sits in (a helper executed in place)
+            key = (eb.defp, e.bb, msg)
+            term = eb.blocks[e.bb]['term']
             line = term.get('cline') or term['line']
             ok, why = self.prove_overflow_check(b, cx, e, msg)
-            inst = '%s|%s at `%s`' % (b.defp, msg, b.src_line(line))
+            inst = '%s|%s at `%s`' % (eb.defp, msg, eb.src_line(line))
             if ok:
                 if key not in done:
                     done.add(key)
@@ -545,7 +549,7 @@ class Engine:
                 base, ex = e.args
                 line = e.line
                 inst = '%s|pow at `%s`' % (b.defp, b.src_line(line))
-                bits = UNSIGNED.get(b.blocks[e.bb]['term'].get('dest_ty'), 64)
+                bits = UNSIGNED.get((self.facts.bodies.get(e.defp or '') or b).blocks[e.bb]['term'].get('dest_ty'), 64)
                 le = cx.lin(ex)
                 ok = base == ('const', 2) and le is not None and entails(cx.K, Lin.const(bits - 1) - le)
                 if ok:
@@ -567,7 +571,7 @@ class Engine:
         self.check_literals(b, paths, done)
 
     def prove_overflow_check(self, b, cx, e, msg):
-        term = b.blocks[e.bb]['term']
+        term = (self.facts.bodies.get(e.defp or '') or b).blocks[e.bb]['term']
         cond = e.term
         op = msg[len('Overflow('):-1]
         if op in ('Shl', 'Shr'):
@@ -883,7 +887,15 @@ def run(facts, rep, module=MODULE, adt=ADT, floor=50, order=True):
         else:
             rep.ok('E4.O3-private-fields', inst, f['vis'])
     nlit = 0
+    from symex import unmentioned_private_helper
+    rcg = facts.rev_callgraph()
+    mine = {x.defp for x in eng.bodies}
     for b in sorted(eng.bodies, key=lambda x: x.defp):
+        callers = rcg.get(b.defp, ())
+        if b.kind != 'Closure' and unmentioned_private_helper(b, None) and callers and all(c in mine for c in callers):
+            # a private helper: its checks are discharged in the context of each caller, where its arguments are bounded
+            rep.ok('E4.O1-no-overflow', '%s|private helper' % b.defp, 'executed in place in %s' % sorted(c.split('::')[-1] for c in callers)[:3])
+            continue
         eng.check_body(b)
     if order:
         check_order(eng, rep)
@@ -919,6 +931,19 @@ def check_display(facts, rep):
             args = [dk(a) for a in e.args]
             if any(re.search(r'arg1\.val\b', a) for a in args) and nm not in ('iter', 'len'):
                 whole.append('%s(%s)' % (nm, ', '.join(a[:40] for a in args)))
+            if nm in ('try_for_each', 'for_each') and len(e.args) == 2 and (dk(e.pre[0]) if e.pre else args[0]) in ('iter(arg1)', 'into_iter(iter(arg1))'):
+                # self.iter().try_for_each(|b| fmt(b, f)): the closure body is the loop body
+                from symex import apply_closure
+                qs = apply_closure(e.args[1], [('item',)]) or []
+                good = bool(qs)
+                for q in qs:
+                    ws = [c for c in q.calls() if c.name.split('::')[-1] in ('fmt', 'write_str', 'write_char', 'write_fmt')]
+                    if len(ws) != 1 or dk(ws[0].args[0]).replace("('item',)", 'ITEM') != 'ITEM' or 'arg2' not in dk(ws[0].args[1]):
+                        good = False
+                if good:
+                    per_elem += 1
+                else:
+                    outside.append('%s(%s)' % (nm, ', '.join(a[:50] for a in args)))
             if nm in ('fmt', 'write_str', 'write_char', 'write_fmt') and any('arg2' in a for a in args):
                 if args and args[0] == 'next(IT).Some.0' and in_loop:
                     per_elem += 1
